@@ -3,6 +3,7 @@ import TextxVerif.Obj.Nav
 import TextxVerif.Obj.LineCol
 import TextxVerif.Obj.Build
 import TextxVerif.Obj.ClassTbl
+import TextxVerif.PosDictObj
 /-! Driver for the object-heap models (C05 navigation / parent links, C06 spans / locations).
 ops:
   {"op":"nav","heap":[[cls,parent|null,[[cont,[id…]]…]]…],"q":[Q…]}   → {"a":[A…]}
@@ -23,7 +24,10 @@ ops:
       (`__bool__` → False), "l" container (`__len__` = number of items in its list-valued
       containment attributes); every other class: always truthy
       T = ["t",pos,len,sep,truthy] | ["n",K,[T…]],  K = ["obj",cls] | ["abs"] | ["mat",truthy] | ["asgn",attr,"optional|plain|many"]
-      → {"root":id|-1,"objs":[[id,cls,parent|null,pos,end,[[name,cont,[id…]]…]]…]}  | {"fail":true}
+      → {"root":id|-1,"objs":[[id,cls,parent|null,pos,end,[[name,cont,[id…]]…]]…],
+         "geo":bool,"nodes":n,"posdict":[[s,e,id]…]}  | {"fail":true}
+        (geo / nodes / posdict when the root is an object: `PosDict.geo`, number of nodes and `PosDict.posRuleDict` of
+         `PosDict.toONode heap |heap| root`, the containment tree of the built model)
   {"op":"wf","tree":T,"len":n}                     → {"wf":bool,"pos":p,"end":e}
   {"op":"linecol","text":s,"pos":[p…]}             → {"lc":[[line,col]…]}
   {"op":"loc","heap":…,"text":s,"file":n|null,"xs":[id…]} → {"loc":[[line,col,nchar,file|null]|null…]}
@@ -257,7 +261,16 @@ def handle1 (j : Json) : Json :=
       match build (truthOf truth) (mmOf tbl) t with
       | some (v, s) =>
         let objs := s.heap.zipIdx.map fun (o, i) => objJ i o
-        Json.mkObj [("root", valJ v), ("objs", Json.arr objs.toArray), ("stack", toJson s.stack)]
+        -- editor support (C34): the containment tree of the built model as an object tree, its geometry
+        -- and the position map computed from it
+        let tools : List (String × Json) := match v with
+          | .obj r =>
+            let t := PosDict.toONode s.heap s.heap.length r
+            [("geo", toJson (PosDict.geo t)), ("nodes", toJson (PosDict.nodes t).length),
+             ("posdict", Json.arr ((PosDict.posRuleDict t).map
+               (fun it => Json.arr #[toJson it.1.1, toJson it.1.2, toJson it.2])).toArray)]
+          | _ => []
+        Json.mkObj ([("root", valJ v), ("objs", Json.arr objs.toArray), ("stack", toJson s.stack)] ++ tools)
       | none => Json.mkObj [("fail", true)]
     | _, _, _ => badOp
   | some "wf" =>
